@@ -1,5 +1,1321 @@
-//! C09 harness (stub: not implemented yet).
+//! C09 — the COB cache answers exactly like direct evaluation.
+//!
+//! One case = one fresh real repository (alice's storage) with a write-through in-memory SQLite COB
+//! cache, plus a *script* of operations:
+//!
+//! * local operations by alice (`a`) through the write-through API (`patch::Cache<_, StoreWriter>`,
+//!   `issue::Cache<_, StoreWriter>`): create / draft / revision / redact / comment / review / lifecycle /
+//!   merge / edit / remove / `write` / `write_all`;
+//! * *fetched updates*: operations by other signers (`b`, `c`) written straight into their namespaces of
+//!   the same repository without touching the cache, followed by ONE call of the real
+//!   `worker::fetch::cache_cobs` with the `RefUpdate`s computed from the actual ref diff
+//!   (token `f:<op>+<op>…`, `f!:` adds a `Skipped` update);
+//! * `q`: run every query of the `Patches` / `Issues` traits on the cached store
+//!   (`Cache<_, StoreWriter>`) and on the direct path (`Cache<_, NoCache>`), for every identifier in the
+//!   pool (all ids occurring anywhere in any object so far + unknown ids).
+//!
+//! Script tokens (`<k>` = index of the token in the script; the entity created by token `k` is named
+//! `<kind><k>`, sub-operation `j` of an `f:` token creates `<kind><k>x<j>`; `p` patch (= its root
+//! revision), `r` revision, `c` comment, `v` review, `d` review comment, `i` issue (= its root comment),
+//! `e` other entry, `u` unknown id, `g` commit):
+//!   pc.S.N pd.S.N rev.S.P.N red.S.P.R cm.S.P.R cred.S.P.R.C rv.S.P.R.V rvc.S.P.W rvred.S.P.W
+//!   lc.S.P.(o|d|a) mg.S.P.R ed.S.P.N rm.S.P      ic.S.N icm.S.I icred.S.I.C ilc.S.I.(o|s|x) ied.S.I.N irm.S.I
+//!   w.P wa iw.I iwa q        (S = signer a|b|c; only `a` may appear outside `f:`)
+//! Tokens starting with `@` are annotations: ignored on input, regenerated on output. They carry the
+//! graph of the opaque function "evaluate this object directly from the repository" at the points used
+//! (the abstract object after each operation), the ref updates handed to `cache_cobs`, and the id pool of
+//! each `q`. The Lean driver reads only them (+ `w`, `wa`, `iw`, `iwa`, `q`).
+//!
+//! Output: for each `q`, `G:…|L:…|S…|C:…|F:…|IG:…|IL:…|IS…|IC:…`; every answer is `<cached>` or
+//! `<cached>!<direct>` when they differ (`E` error, `P` panic, `-` none / empty).
+
+use std::collections::{BTreeMap, BTreeSet};
+use std::hash::{Hash, Hasher};
+use std::ops::ControlFlow;
+use std::str::FromStr;
+
+use radicle::cob::cache::{NoCache, StoreWriter, Update};
+use radicle::cob::issue::{self, CloseReason, Issue};
+use radicle::cob::patch::{self, Lifecycle, MergeTarget, Patch, PatchMut, ReviewId, RevisionId, Status, Verdict};
+use radicle::cob::store::Store as CobStore;
+use radicle::cob::{self, ObjectId};
+use radicle::crypto::test::signer::MockSigner;
+use radicle::git;
+use radicle::node::device::Device;
+use radicle::storage::git::Repository;
+use radicle::storage::RefUpdate;
+use radicle::test::setup::Node;
+use radicle_node::worker::verif::cache_cobs;
+use verif_common::*;
+
+type Dev = Device<MockSigner>;
+
+fn digest(s: &str) -> String {
+    let mut h = std::collections::hash_map::DefaultHasher::new();
+    s.hash(&mut h);
+    format!("{:010x}", h.finish() & 0xff_ffff_ffff)
+}
+
+fn jdigest<T: serde::Serialize>(t: &T) -> String {
+    digest(&serde_json::to_string(t).unwrap_or_else(|_| "unserializable".into()))
+}
+
+/// A project created once per process (`rad init` with alice's key, plus three commits); every case works
+/// on its own copy of the storage directory, so cases are independent and cheap to set up.
+struct Template {
+    _node: Node,
+    root: std::path::PathBuf,
+    storage: std::path::PathBuf,
+    rid: radicle::prelude::RepoId,
+    commits: Vec<(git::Oid, git::Oid)>,
+}
+
+fn template() -> &'static Template {
+    static T: std::sync::OnceLock<Template> = std::sync::OnceLock::new();
+    T.get_or_init(|| {
+        let tmp = tempfile::tempdir().expect("tempdir");
+        let node = Node::new(tmp, MockSigner::from_seed([0xa1; 32]), "alice");
+        let repo = node.project();
+        let rid = repo.id;
+        // g0 = head of alice's default branch (mergeable); g1, g2 = further commits (not on the branch)
+        let raw = &repo.repo.backend;
+        let head = raw
+            .find_reference(&format!("refs/namespaces/{}/refs/heads/master", node.signer.public_key()))
+            .expect("master")
+            .peel_to_commit()
+            .expect("commit");
+        let sig = git2::Signature::new("anonymous", "anonymous@example.com", &git2::Time::new(1_700_000_000, 0)).expect("sig");
+        let tree = head.tree().expect("tree");
+        let mut commits = vec![];
+        let base: git::Oid = head.parent_id(0).map(git::Oid::from).unwrap_or_else(|_| head.id().into());
+        commits.push((base, git::Oid::from(head.id())));
+        for i in 1..3 {
+            let oid = raw.commit(None, &sig, &sig, &format!("commit {i}"), &tree, &[&head]).expect("commit");
+            commits.push((git::Oid::from(head.id()), git::Oid::from(oid)));
+        }
+        let storage = node.storage.path().to_path_buf();
+        let root = node.root.clone();
+        Template { _node: node, root, storage, rid, commits }
+    })
+}
+
+fn copy_dir(from: &std::path::Path, to: &std::path::Path) -> std::io::Result<()> {
+    std::fs::create_dir_all(to)?;
+    for e in std::fs::read_dir(from)? {
+        let e = e?;
+        let (src, dst) = (e.path(), to.join(e.file_name()));
+        if e.file_type()?.is_dir() {
+            copy_dir(&src, &dst)?;
+        } else {
+            std::fs::copy(&src, &dst)?;
+        }
+    }
+    Ok(())
+}
+
+struct World {
+    _tmp: tempfile::TempDir,
+    storage: radicle::Storage,
+    repo: Repository,
+    signers: Vec<Dev>,
+    db: StoreWriter,
+    commits: Vec<(git::Oid, git::Oid)>,
+    /// hex id -> symbolic name
+    sym: BTreeMap<String, String>,
+    /// symbolic name -> hex id
+    hex: BTreeMap<String, String>,
+    /// names in order of introduction (the id pool)
+    pool: Vec<String>,
+    tags: BTreeSet<String>,
+    viol: Vec<(String, String)>,
+    /// Known finding `stale-after-remove`: names of the objects on which the local signer performed
+    /// `remove` while another peer's reference kept the object alive, and whose cache row has not been
+    /// rewritten since (by cache_cobs, write or write_all). Derived from the script, not from the answers.
+    stale_p: BTreeSet<String>,
+    stale_i: BTreeSet<String>,
+}
+
+#[derive(Clone, Copy, PartialEq, Eq)]
+enum Kind {
+    Patch,
+    Issue,
+}
+
+/// What a single operation did.
+enum Done {
+    /// (object kind, object id): object written / touched
+    Touched(Kind, ObjectId),
+    Failed(String),
+}
+
+impl World {
+    fn new() -> World {
+        use radicle::storage::ReadStorage;
+        let t = template();
+        let tmp = tempfile::tempdir().expect("tempdir");
+        let path = tmp.path().join("storage");
+        copy_dir(&t.storage, &path).expect("copy template storage");
+        let signers: Vec<Dev> = vec![
+            Device::mock_from_seed([0xa1; 32]),
+            Device::mock_from_seed([0xb2; 32]),
+            Device::mock_from_seed([0xc3; 32]),
+        ];
+        let storage = radicle::Storage::open(
+            &path,
+            git::UserInfo { alias: radicle::node::Alias::new("alice"), key: *signers[0].public_key() },
+        )
+        .expect("open storage");
+        let repo = storage.repository(t.rid).expect("open repository");
+        let db = radicle::cob::cache::Store::<radicle::cob::cache::Write>::memory()
+            .expect("memory db")
+            .with_migrations(radicle::cob::migrate::ignore)
+            .expect("migrations");
+        let mut w = World {
+            _tmp: tmp,
+            storage,
+            repo,
+            signers,
+            db,
+            commits: t.commits.clone(),
+            sym: BTreeMap::new(),
+            hex: BTreeMap::new(),
+            pool: vec![],
+            tags: BTreeSet::new(),
+            viol: vec![],
+            stale_p: BTreeSet::new(),
+            stale_i: BTreeSet::new(),
+        };
+        assert_eq!(w.signers[0].public_key(), t._node.signer.public_key());
+        for (i, (_, oid)) in w.commits.clone().iter().enumerate() {
+            w.name(&oid.to_string(), format!("g{i}"));
+        }
+        for i in 0..2 {
+            let fake = format!("{:040x}", 0xfeed_0000_0000u64 + i);
+            w.name(&fake, format!("u{i}"));
+        }
+        w
+    }
+
+    fn name(&mut self, hex: &str, name: String) {
+        if !self.sym.contains_key(hex) {
+            self.sym.insert(hex.to_string(), name.clone());
+            self.hex.insert(name.clone(), hex.to_string());
+            self.pool.push(name);
+        }
+    }
+
+    /// Symbolic name of an id; ids never named before get a name derived from their hex (and join the pool).
+    fn sym_of(&mut self, hex: &str) -> String {
+        if let Some(n) = self.sym.get(hex) {
+            return n.clone();
+        }
+        let n = format!("x{}", &hex[..hex.len().min(10)]);
+        self.name(hex, n.clone());
+        n
+    }
+
+    fn oid_of(&self, name: &str) -> Option<git::Oid> {
+        self.hex.get(name).and_then(|h| git::Oid::from_str(h).ok())
+    }
+
+    fn actor(&self, key: &str) -> String {
+        for (i, s) in self.signers.iter().enumerate() {
+            let pk = s.public_key().to_string();
+            if key == pk || key.ends_with(&pk) {
+                return ["a", "b", "c"][i].to_string();
+            }
+        }
+        "z".into()
+    }
+
+    fn repo(&self) -> &Repository {
+        &self.repo
+    }
+
+    /// A second handle on the same repository (so that `self` stays free for bookkeeping).
+    fn reopen(&self) -> Repository {
+        use radicle::storage::ReadStorage;
+        self.storage.repository(self.repo.id).expect("reopen repository")
+    }
+
+    // ---- abstract objects (the graph of direct evaluation) ------------------------------------------
+
+    fn direct_patch(&self, id: &ObjectId) -> Option<Patch> {
+        patch::Patches::open(self.repo()).ok()?.get(id).ok().flatten()
+    }
+
+    fn direct_issue(&self, id: &ObjectId) -> Option<Issue> {
+        issue::Issues::open(self.repo()).ok()?.get(id).ok().flatten()
+    }
+
+    fn ids_of(&mut self, v: Option<&serde_json::Value>) -> String {
+        let mut out = vec![];
+        if let Some(serde_json::Value::Object(m)) = v {
+            for k in m.keys() {
+                out.push(self.sym_of(k));
+            }
+        }
+        if out.is_empty() {
+            "-".into()
+        } else {
+            out.join("+")
+        }
+    }
+
+    fn abs_patch(&mut self, p: &Patch) -> String {
+        let status = match p.state() {
+            patch::State::Draft => "draft",
+            patch::State::Open { .. } => "open",
+            patch::State::Archived => "archived",
+            patch::State::Merged { .. } => "merged",
+        };
+        let extra = jdigest(p.state());
+        let v = serde_json::to_value(p).expect("patch to json");
+        let mut revs = vec![];
+        if let Some(serde_json::Value::Object(m)) = v.get("revisions") {
+            for (k, rv) in m {
+                let rname = self.sym_of(k);
+                let rid = RevisionId::from(git::Oid::from_str(k).expect("revision id"));
+                match p.revision(&rid) {
+                    None => {
+                        if !rv.is_null() {
+                            self.viol.push(("abstraction-broken".into(), format!("revision {k} present in JSON, absent by API")));
+                        }
+                        revs.push(format!("{rname}~!"));
+                    }
+                    Some(r) => {
+                        let comments = self.ids_of(rv.get("discussion").and_then(|d| d.get("comments")));
+                        let mut reviews = vec![];
+                        if let Some(serde_json::Value::Object(rm)) = rv.get("reviews") {
+                            for (actor, review) in rm {
+                                let a = self.actor(actor);
+                                let vid = review.get("id").and_then(|x| x.as_str()).unwrap_or("").to_string();
+                                let vname = self.sym_of(&vid);
+                                let cs = self.ids_of(review.get("comments").and_then(|d| d.get("comments")));
+                                reviews.push(format!("{a}/{vname}/{cs}"));
+                            }
+                        }
+                        let reviews = if reviews.is_empty() { "-".to_string() } else { reviews.join("^") };
+                        revs.push(format!("{rname}~{}~{comments}~{reviews}", jdigest(r)));
+                    }
+                }
+            }
+        }
+        // entry ids of the timeline and review index join the pool, too
+        if let Some(serde_json::Value::Array(t)) = v.get("timeline") {
+            for e in t {
+                if let Some(s) = e.as_str() {
+                    self.sym_of(s);
+                }
+            }
+        }
+        if let Some(serde_json::Value::Object(m)) = v.get("reviews") {
+            for k in m.keys() {
+                self.sym_of(k);
+            }
+        }
+        let revs = if revs.is_empty() { "-".to_string() } else { revs.join(";") };
+        format!("{status}.{extra}.{}.{revs}", jdigest(p))
+    }
+
+    fn abs_issue(&mut self, i: &Issue) -> String {
+        let state = match i.state() {
+            issue::State::Open => "open",
+            issue::State::Closed { reason: CloseReason::Solved } => "solved",
+            issue::State::Closed { reason: CloseReason::Other } => "other",
+        };
+        let v = serde_json::to_value(i).expect("issue to json");
+        let comments = self.ids_of(v.get("thread").and_then(|t| t.get("comments")));
+        format!("{state}.{}.{comments}", jdigest(i))
+    }
+
+    fn abs(&mut self, kind: Kind, id: &ObjectId) -> String {
+        match kind {
+            Kind::Patch => match self.direct_patch(id) {
+                Some(p) => self.abs_patch(&p),
+                None => "-".into(),
+            },
+            Kind::Issue => match self.direct_issue(id) {
+                Some(i) => self.abs_issue(&i),
+                None => "-".into(),
+            },
+        }
+    }
+
+    // ---- operations ---------------------------------------------------------------------------------
+
+    /// Run one patch/issue operation with signer `s`; `local` = through the write-through cache.
+    fn op(&mut self, tok: &str, tag: &str, local: bool) -> Done {
+        let f: Vec<&str> = tok.split('.').collect();
+        let s = match f.get(1) {
+            Some(&"a") => 0,
+            Some(&"b") => 1,
+            Some(&"c") => 2,
+            _ => return Done::Failed("bad-signer".into()),
+        };
+        if local != (s == 0) {
+            return Done::Failed("bad-signer".into());
+        }
+        let signer = Device::mock_from_seed([[0xa1u8, 0xb2, 0xc3][s]; 32]);
+        let arg = |i: usize| f.get(i).copied().unwrap_or("");
+        let r = if f[0].starts_with('i') {
+            self.issue_op(&f, tag, &signer, local)
+        } else {
+            self.patch_op(&f, tag, &signer, local)
+        };
+        let _ = arg;
+        match r {
+            Ok(d) => d,
+            Err(e) => Done::Failed(e),
+        }
+    }
+
+    fn patch_op(&mut self, f: &[&str], tag: &str, signer: &Dev, local: bool) -> Result<Done, String> {
+        let e2s = |e: &dyn std::fmt::Display| {
+            let s = e.to_string();
+            s.chars().take(60).collect::<String>()
+        };
+        let repo = self.reopen();
+        let repo = &repo;
+        let arg = |i: usize| f.get(i).copied().unwrap_or("");
+        match f[0] {
+            "pc" | "pd" => {
+                let n: usize = arg(2).parse().map_err(|_| "bad-arg".to_string())?;
+                let (base, oid) = self.commits[n % self.commits.len()];
+                let title = format!("patch {n} #{tag}");
+                let id = if local {
+                    let mut c = patch::Cache::open(patch::Patches::open(repo).map_err(|e| e2s(&e))?, self.db.clone());
+                    let pm = if f[0] == "pc" {
+                        c.create(title, "description", MergeTarget::Delegates, base, oid, &[], signer)
+                    } else {
+                        c.draft(title, "description", MergeTarget::Delegates, base, oid, &[], signer)
+                    }
+                    .map_err(|e| e2s(&e))?;
+                    pm.id
+                } else {
+                    let mut c = patch::Cache::no_cache(repo).map_err(|e| e2s(&e))?;
+                    let pm = if f[0] == "pc" {
+                        c.create(title, "description", MergeTarget::Delegates, base, oid, &[], signer)
+                    } else {
+                        c.draft(title, "description", MergeTarget::Delegates, base, oid, &[], signer)
+                    }
+                    .map_err(|e| e2s(&e))?;
+                    pm.id
+                };
+                self.name(&id.to_string(), format!("p{tag}"));
+                Ok(Done::Touched(Kind::Patch, id))
+            }
+            "rm" => {
+                let id = ObjectId::from(self.oid_of(arg(2)).ok_or("unknown-ref")?);
+                if local {
+                    let mut c = patch::Cache::open(patch::Patches::open(repo).map_err(|e| e2s(&e))?, self.db.clone());
+                    c.remove(&id, signer).map_err(|e| e2s(&e))?;
+                } else {
+                    let st = patch::Patches::open(repo).map_err(|e| e2s(&e))?;
+                    st.remove(&id, signer).map_err(|e| e2s(&e))?;
+                }
+                Ok(Done::Touched(Kind::Patch, id))
+            }
+            _ => {
+                let id = ObjectId::from(self.oid_of(arg(2)).ok_or("unknown-ref")?);
+                let named = if local {
+                    let mut c = patch::Cache::open(patch::Patches::open(repo).map_err(|e| e2s(&e))?, self.db.clone());
+                    let mut pm = c.get_mut(&id).map_err(|e| e2s(&e))?;
+                    self.patch_mut_op(&mut pm, f, signer)?
+                } else {
+                    let mut c = patch::Cache::no_cache(repo).map_err(|e| e2s(&e))?;
+                    let mut pm = c.get_mut(&id).map_err(|e| e2s(&e))?;
+                    self.patch_mut_op(&mut pm, f, signer)?
+                };
+                if let Some((k, hex)) = named {
+                    self.name(&hex, format!("{k}{tag}"));
+                }
+                Ok(Done::Touched(Kind::Patch, id))
+            }
+        }
+    }
+
+    fn patch_mut_op<C: Update<Patch>>(
+        &self,
+        pm: &mut PatchMut<'_, '_, Repository, C>,
+        f: &[&str],
+        signer: &Dev,
+    ) -> Result<Option<(char, String)>, String> {
+        let e2s = |e: patch::Error| e.to_string().chars().take(60).collect::<String>();
+        let arg = |i: usize| f.get(i).copied().unwrap_or("");
+        let rid = |name: &str| self.oid_of(name).map(RevisionId::from).ok_or_else(|| "unknown-ref".to_string());
+        Ok(match f[0] {
+            "rev" => {
+                let n: usize = arg(3).parse().map_err(|_| "bad-arg".to_string())?;
+                let (base, oid) = self.commits[n % self.commits.len()];
+                let r = pm.update(format!("revision {n}"), base, oid, signer).map_err(e2s)?;
+                Some(('r', r.to_string()))
+            }
+            "red" => {
+                let e = pm.redact(rid(arg(3))?, signer).map_err(e2s)?;
+                Some(('e', e.to_string()))
+            }
+            "cm" => {
+                let e = pm.comment(rid(arg(3))?, "a comment", None, None, [], signer).map_err(e2s)?;
+                Some(('c', e.to_string()))
+            }
+            "cred" => {
+                let c = self.oid_of(arg(4)).ok_or("unknown-ref")?;
+                let e = pm.comment_redact(rid(arg(3))?, c, signer).map_err(e2s)?;
+                Some(('e', e.to_string()))
+            }
+            "rv" => {
+                let verdict = match arg(4) {
+                    "a" => Some(Verdict::Accept),
+                    "r" => Some(Verdict::Reject),
+                    "n" => None,
+                    _ => return Err("bad-arg".into()),
+                };
+                let v = pm.review(rid(arg(3))?, verdict, Some("summary".to_string()), vec![], signer).map_err(e2s)?;
+                Some(('v', v.to_string()))
+            }
+            "rvc" => {
+                let v = self.oid_of(arg(3)).map(ReviewId::from).ok_or("unknown-ref")?;
+                let e = pm.review_comment(v, "a review comment", None, None, [], signer).map_err(e2s)?;
+                Some(('d', e.to_string()))
+            }
+            "rvred" => {
+                let v = self.oid_of(arg(3)).map(ReviewId::from).ok_or("unknown-ref")?;
+                let e = pm.redact_review(v, signer).map_err(e2s)?;
+                Some(('e', e.to_string()))
+            }
+            "lc" => {
+                let st = match arg(3) {
+                    "o" => Lifecycle::Open,
+                    "d" => Lifecycle::Draft,
+                    "a" => Lifecycle::Archived,
+                    _ => return Err("bad-arg".into()),
+                };
+                let e = pm.lifecycle(st, signer).map_err(e2s)?;
+                Some(('e', e.to_string()))
+            }
+            "mg" => {
+                let r = rid(arg(3))?;
+                let commit = pm.revision(&r).map(|r| r.head()).ok_or("unknown-revision")?;
+                let m = pm.merge(r, commit, signer).map_err(e2s)?;
+                Some(('e', m.entry.to_string()))
+            }
+            "ed" => {
+                let e = pm
+                    .edit::<_, String>(format!("title {}", arg(3)), MergeTarget::Delegates, signer)
+                    .map_err(e2s)?;
+                Some(('e', e.to_string()))
+            }
+            _ => return Err("bad-op".into()),
+        })
+    }
+
+    fn issue_op(&mut self, f: &[&str], tag: &str, signer: &Dev, local: bool) -> Result<Done, String> {
+        fn e2s(e: impl std::fmt::Display) -> String {
+            e.to_string().chars().take(60).collect::<String>()
+        }
+        let repo = self.reopen();
+        let repo = &repo;
+        let arg = |i: usize| f.get(i).copied().unwrap_or("");
+        match f[0] {
+            "ic" => {
+                let n = arg(2);
+                let id = if local {
+                    let mut c = issue::Cache::open(issue::Issues::open(repo).map_err(e2s)?, self.db.clone());
+                    let im = c.create(format!("issue {n} #{tag}"), "description", &[], &[], [], signer).map_err(e2s)?;
+                    *im.id()
+                } else {
+                    let mut c = issue::Cache::no_cache(repo).map_err(e2s)?;
+                    let im = c.create(format!("issue {n} #{tag}"), "description", &[], &[], [], signer).map_err(e2s)?;
+                    *im.id()
+                };
+                self.name(&id.to_string(), format!("i{tag}"));
+                Ok(Done::Touched(Kind::Issue, id))
+            }
+            "irm" => {
+                let id = ObjectId::from(self.oid_of(arg(2)).ok_or("unknown-ref")?);
+                if local {
+                    let mut c = issue::Cache::open(issue::Issues::open(repo).map_err(e2s)?, self.db.clone());
+                    c.remove(&id, signer).map_err(e2s)?;
+                } else {
+                    let st = issue::Issues::open(repo).map_err(e2s)?;
+                    st.remove::<NoCache, _>(&id, signer).map_err(e2s)?;
+                }
+                Ok(Done::Touched(Kind::Issue, id))
+            }
+            _ => {
+                let id = ObjectId::from(self.oid_of(arg(2)).ok_or("unknown-ref")?);
+                macro_rules! run {
+                    ($im:expr) => {{
+                        let im = $im;
+                        match f[0] {
+                            "icm" => {
+                                let root = *im.root().0;
+                                let e = im.comment("an issue comment", root, [], signer).map_err(e2s)?;
+                                Some(('c', e.to_string()))
+                            }
+                            "icred" => {
+                                let c = self.oid_of(arg(3)).ok_or("unknown-ref")?;
+                                let e = im.redact_comment(c, signer).map_err(e2s)?;
+                                Some(('e', e.to_string()))
+                            }
+                            "ilc" => {
+                                let st = match arg(3) {
+                                    "o" => issue::State::Open,
+                                    "s" => issue::State::Closed { reason: CloseReason::Solved },
+                                    "x" => issue::State::Closed { reason: CloseReason::Other },
+                                    _ => return Err("bad-arg".into()),
+                                };
+                                let e = im.lifecycle(st, signer).map_err(e2s)?;
+                                Some(('e', e.to_string()))
+                            }
+                            "ied" => {
+                                let e = im.edit(format!("title {}", arg(3)), signer).map_err(e2s)?;
+                                Some(('e', e.to_string()))
+                            }
+                            _ => return Err("bad-op".into()),
+                        }
+                    }};
+                }
+                let named: Option<(char, String)> = if local {
+                    let mut c = issue::Cache::open(issue::Issues::open(repo).map_err(e2s)?, self.db.clone());
+                    let mut im = c.get_mut(&id).map_err(e2s)?;
+                    run!(&mut im)
+                } else {
+                    let mut c = issue::Cache::no_cache(repo).map_err(e2s)?;
+                    let mut im = c.get_mut(&id).map_err(e2s)?;
+                    run!(&mut im)
+                };
+                if let Some((k, hex)) = named {
+                    self.name(&hex, format!("{k}{tag}"));
+                }
+                Ok(Done::Touched(Kind::Issue, id))
+            }
+        }
+    }
+
+    /// All `refs/namespaces/*/refs/*` references (name -> target).
+    fn refs(&self) -> BTreeMap<String, git::Oid> {
+        let mut m = BTreeMap::new();
+        if let Ok(refs) = self.repo().backend.references_glob("refs/namespaces/*") {
+            for r in refs.flatten() {
+                if let (Some(n), Some(t)) = (r.name(), r.target()) {
+                    m.insert(n.to_string(), git::Oid::from(t));
+                }
+            }
+        }
+        m
+    }
+
+    /// One direct evaluation of the object: its abstract form and (oracle) the comparison with the cached row.
+    fn abs_checked(&mut self, kind: Kind, id: &ObjectId, class: &str) -> String {
+        let repo = self.reopen();
+        match kind {
+            Kind::Patch => {
+                let d = self.direct_patch(id);
+                let c = catch(|| {
+                    let c = patch::Cache::open(patch::Patches::open(&repo).expect("open"), self.db.clone());
+                    patch::cache::Patches::get(&c, id)
+                });
+                if !matches!(&c, Ok(Ok(c)) if *c == d) {
+                    let n = self.sym_of(&id.to_string());
+                    self.viol.push((class.to_string(), format!("patch {n}: cached get differs from direct evaluation (direct is {})", if d.is_some() { "present" } else { "absent" })));
+                }
+                match d {
+                    Some(p) => self.abs_patch(&p),
+                    None => "-".into(),
+                }
+            }
+            Kind::Issue => {
+                let d = self.direct_issue(id);
+                let c = catch(|| {
+                    let c = issue::Cache::open(issue::Issues::open(&repo).expect("open"), self.db.clone());
+                    issue::cache::Issues::get(&c, id)
+                });
+                if !matches!(&c, Ok(Ok(c)) if *c == d) {
+                    let n = self.sym_of(&id.to_string());
+                    self.viol.push((class.to_string(), format!("issue {n}: cached get differs from direct evaluation (direct is {})", if d.is_some() { "present" } else { "absent" })));
+                }
+                match d {
+                    Some(i) => self.abs_issue(&i),
+                    None => "-".into(),
+                }
+            }
+        }
+    }
+
+    // ---- immediate staleness check (oracle) ----------------------------------------------------------
+
+    /// (cached get == direct get, cached get is `Ok(None)`, direct get is `Some`)
+    fn probe(&self, kind: Kind, id: &ObjectId) -> (bool, bool, bool) {
+        let repo = self.reopen();
+        match kind {
+            Kind::Patch => {
+                let d = patch::Patches::open(&repo).ok().and_then(|s| s.get(id).ok()).flatten();
+                let c = catch(|| {
+                    let c = patch::Cache::open(patch::Patches::open(&repo).expect("open"), self.db.clone());
+                    patch::cache::Patches::get(&c, id)
+                });
+                (matches!(&c, Ok(Ok(c)) if *c == d), matches!(&c, Ok(Ok(None))), d.is_some())
+            }
+            Kind::Issue => {
+                let d = issue::Issues::open(&repo).ok().and_then(|s| s.get(id).ok()).flatten();
+                let c = catch(|| {
+                    let c = issue::Cache::open(issue::Issues::open(&repo).expect("open"), self.db.clone());
+                    issue::cache::Issues::get(&c, id)
+                });
+                (matches!(&c, Ok(Ok(c)) if *c == d), matches!(&c, Ok(Ok(None))), d.is_some())
+            }
+        }
+    }
+
+    // ---- queries -------------------------------------------------------------------------------------
+
+    fn show_patches(&mut self, r: Result<Result<Vec<(ObjectId, Patch)>, String>, String>) -> String {
+        match r {
+            Err(_) => "P".into(),
+            Ok(Err(_)) => "E".into(),
+            Ok(Ok(v)) => {
+                let mut xs: Vec<String> = v.iter().map(|(id, p)| format!("{}#{}", self.sym_of(&id.to_string()), jdigest(p))).collect();
+                xs.sort();
+                if xs.is_empty() { "-".into() } else { xs.join(",") }
+            }
+        }
+    }
+
+    fn show_issues(&mut self, r: Result<Result<Vec<(ObjectId, Issue)>, String>, String>) -> String {
+        match r {
+            Err(_) => "P".into(),
+            Ok(Err(_)) => "E".into(),
+            Ok(Ok(v)) => {
+                let mut xs: Vec<String> = v.iter().map(|(id, p)| format!("{}#{}", self.sym_of(&id.to_string()), jdigest(p))).collect();
+                xs.sort();
+                if xs.is_empty() { "-".into() } else { xs.join(",") }
+            }
+        }
+    }
+
+    /// `d_adj` = the direct answer with the known-stale objects (`stale_p` / `stale_i`) taken out: a
+    /// difference explained by them alone is the known finding `stale-after-remove`; any other difference
+    /// keeps the class of its query.
+    fn cmp(&mut self, class: &str, what: &str, c: String, d: String, d_adj: String) -> String {
+        if c == d {
+            c
+        } else {
+            if c == d_adj {
+                self.viol.push(("stale-after-remove".to_string(), format!("{what}: cached={c} direct={d} (object removed locally, kept alive by another peer's reference)")));
+            } else {
+                self.viol.push((class.to_string(), format!("{what}: cached={c} direct={d}")));
+            }
+            format!("{c}!{d}")
+        }
+    }
+
+    /// A `name#digest,…` list without the entries of the given names.
+    fn without(list: &str, names: &BTreeSet<String>) -> String {
+        if list == "-" || list == "E" || list == "P" {
+            return list.to_string();
+        }
+        let v: Vec<&str> = list.split(',').filter(|e| !names.contains(e.split('#').next().unwrap_or(""))).collect();
+        if v.is_empty() { "-".into() } else { v.join(",") }
+    }
+
+    fn query(&mut self) -> (String, String) {
+        use issue::cache::Issues as IQ;
+        use patch::cache::Patches as PQ;
+        let repo = self.reopen();
+        let repo = &repo;
+        let pool = self.pool.clone();
+        let mut out = vec![];
+        fn s<E: std::fmt::Display>(e: E) -> String {
+            e.to_string()
+        }
+        let pc = patch::Cache::open(patch::Patches::open(repo).expect("open"), self.db.clone());
+        let pd = patch::Cache::no_cache(repo).expect("open");
+        let ic = issue::Cache::open(issue::Issues::open(repo).expect("open"), self.db.clone());
+        let id_ = issue::Cache::no_cache(repo).expect("open");
+
+        // get
+        let mut g = vec![];
+        let mut ig = vec![];
+        for n in &pool {
+            let Some(oid) = self.oid_of(n) else { continue };
+            let id = ObjectId::from(oid);
+            let show = |r: Result<Result<Option<String>, String>, String>| match r {
+                Err(_) => "P".to_string(),
+                Ok(Err(_)) => "E".to_string(),
+                Ok(Ok(None)) => "-".to_string(),
+                Ok(Ok(Some(d))) => d,
+            };
+            let c = show(catch(|| PQ::get(&pc, &id).map(|o| o.map(|p| jdigest(&p))).map_err(s)));
+            let d = show(catch(|| PQ::get(&pd, &id).map(|o| o.map(|p| jdigest(&p))).map_err(s)));
+            let adj = if self.stale_p.contains(n) { "-".to_string() } else { d.clone() };
+            let a = self.cmp("get-mismatch", &format!("patch get {n}"), c, d, adj);
+            g.push(format!("{n}={a}"));
+            let c = show(catch(|| IQ::get(&ic, &id).map(|o| o.map(|p| jdigest(&p))).map_err(s)));
+            let d = show(catch(|| IQ::get(&id_, &id).map(|o| o.map(|p| jdigest(&p))).map_err(s)));
+            let adj = if self.stale_i.contains(n) { "-".to_string() } else { d.clone() };
+            let a = self.cmp("issue-get-mismatch", &format!("issue get {n}"), c, d, adj);
+            ig.push(format!("{n}={a}"));
+        }
+        out.push(format!("G:{}", g.join(",")));
+
+        // list
+        let c = catch(|| PQ::list(&pc).map_err(s).and_then(|it| it.collect::<Result<Vec<_>, _>>().map_err(s)));
+        let d = catch(|| PQ::list(&pd).map_err(s).and_then(|it| it.collect::<Result<Vec<_>, _>>().map_err(s)));
+        let (c, d) = (self.show_patches(c), self.show_patches(d));
+        let adj = Self::without(&d, &self.stale_p);
+        let a = self.cmp("list-mismatch", "patch list", c, d, adj);
+        out.push(format!("L:{a}"));
+
+        // list by status
+        for (st, name) in [(Status::Draft, "draft"), (Status::Open, "open"), (Status::Archived, "archived"), (Status::Merged, "merged")] {
+            let c = catch(|| PQ::list_by_status(&pc, &st).map_err(s).and_then(|it| it.collect::<Result<Vec<_>, _>>().map_err(s)));
+            let d = catch(|| PQ::list_by_status(&pd, &st).map_err(s).and_then(|it| it.collect::<Result<Vec<_>, _>>().map_err(s)));
+            let (c, d) = (self.show_patches(c), self.show_patches(d));
+            if c != "-" {
+                self.tags.insert(format!("status-{name}-nonempty"));
+            }
+            let adj = Self::without(&d, &self.stale_p);
+            let a = self.cmp("list-by-status-mismatch", &format!("patch list_by_status {name}"), c, d, adj);
+            out.push(format!("S{name}:{a}"));
+        }
+
+        // counts
+        let showc = |r: Result<Result<patch::PatchCounts, String>, String>| match r {
+            Err(_) => "P".to_string(),
+            Ok(Err(_)) => "E".to_string(),
+            Ok(Ok(c)) => format!("{},{},{},{}", c.open, c.draft, c.archived, c.merged),
+        };
+        let c = showc(catch(|| PQ::counts(&pc).map_err(s)));
+        let d = showc(catch(|| PQ::counts(&pd).map_err(s)));
+        // direct counts without the known-stale patches
+        let adj = match catch(|| PQ::counts(&pd).map_err(s)) {
+            Ok(Ok(mut k)) => {
+                for n in self.stale_p.clone() {
+                    if let Some(p) = self.oid_of(&n).and_then(|o| self.direct_patch(&ObjectId::from(o))) {
+                        match p.state() {
+                            patch::State::Draft => k.draft = k.draft.saturating_sub(1),
+                            patch::State::Open { .. } => k.open = k.open.saturating_sub(1),
+                            patch::State::Archived => k.archived = k.archived.saturating_sub(1),
+                            patch::State::Merged { .. } => k.merged = k.merged.saturating_sub(1),
+                        }
+                    }
+                }
+                format!("{},{},{},{}", k.open, k.draft, k.archived, k.merged)
+            }
+            _ => d.clone(),
+        };
+        let a = self.cmp("counts-mismatch", "patch counts", c, d, adj);
+        out.push(format!("C:{a}"));
+
+        // find by revision
+        let mut fb = vec![];
+        for n in &pool {
+            let Some(oid) = self.oid_of(n) else { continue };
+            let rid = RevisionId::from(oid);
+            let mut found = None;
+            let mut show = |w: &mut World, r: Result<Result<Option<patch::ByRevision>, String>, String>| match r {
+                Err(_) => "P".to_string(),
+                Ok(Err(_)) => "E".to_string(),
+                Ok(Ok(None)) => "-".to_string(),
+                Ok(Ok(Some(b))) => {
+                    found = Some(());
+                    format!("{}/{}/{}#{}", w.sym_of(&b.id.to_string()), w.sym_of(&b.revision_id.to_string()), jdigest(&b.revision), jdigest(&b.patch))
+                }
+            };
+            let c = catch(|| PQ::find_by_revision(&pc, &rid).map_err(s));
+            let c = show(self, c);
+            let d = catch(|| PQ::find_by_revision(&pd, &rid).map_err(s));
+            let d = show(self, d);
+            if found.is_some() {
+                self.tags.insert("find-hit".into());
+            }
+            let adj = if self.stale_p.contains(d.split('/').next().unwrap_or("")) { "-".to_string() } else { d.clone() };
+            let a = self.cmp("find-by-revision-mismatch", &format!("find_by_revision {n}"), c, d, adj);
+            fb.push(format!("{n}={a}"));
+        }
+        out.push(format!("F:{}", fb.join(",")));
+
+        // issues
+        out.push(format!("IG:{}", ig.join(",")));
+        let c = catch(|| IQ::list(&ic).map_err(s).and_then(|it| it.collect::<Result<Vec<_>, _>>().map_err(s)));
+        let d = catch(|| IQ::list(&id_).map_err(s).and_then(|it| it.collect::<Result<Vec<_>, _>>().map_err(s)));
+        let (c, d) = (self.show_issues(c), self.show_issues(d));
+        let adj = Self::without(&d, &self.stale_i);
+        let a = self.cmp("issue-list-mismatch", "issue list", c, d, adj);
+        out.push(format!("IL:{a}"));
+        for (st, name) in [
+            (issue::State::Open, "open"),
+            (issue::State::Closed { reason: CloseReason::Solved }, "solved"),
+            (issue::State::Closed { reason: CloseReason::Other }, "other"),
+        ] {
+            let c = catch(|| IQ::list_by_status(&ic, &st).map_err(s).and_then(|it| it.collect::<Result<Vec<_>, _>>().map_err(s)));
+            let d = catch(|| IQ::list_by_status(&id_, &st).map_err(s).and_then(|it| it.collect::<Result<Vec<_>, _>>().map_err(s)));
+            let (c, d) = (self.show_issues(c), self.show_issues(d));
+            if c != "-" {
+                self.tags.insert(format!("issue-status-{name}-nonempty"));
+            }
+            let adj = Self::without(&d, &self.stale_i);
+            let a = self.cmp("issue-list-by-status-mismatch", &format!("issue list_by_status {name}"), c, d, adj);
+            out.push(format!("IS{name}:{a}"));
+        }
+        let showc = |r: Result<Result<issue::IssueCounts, String>, String>| match r {
+            Err(_) => "P".to_string(),
+            Ok(Err(_)) => "E".to_string(),
+            Ok(Ok(c)) => format!("{},{}", c.open, c.closed),
+        };
+        let c = showc(catch(|| IQ::counts(&ic).map_err(s)));
+        let d = showc(catch(|| IQ::counts(&id_).map_err(s)));
+        let adj = match catch(|| IQ::counts(&id_).map_err(s)) {
+            Ok(Ok(mut k)) => {
+                for n in self.stale_i.clone() {
+                    if let Some(i) = self.oid_of(&n).and_then(|o| self.direct_issue(&ObjectId::from(o))) {
+                        match i.state() {
+                            issue::State::Open => k.open = k.open.saturating_sub(1),
+                            issue::State::Closed { .. } => k.closed = k.closed.saturating_sub(1),
+                        }
+                    }
+                }
+                format!("{},{}", k.open, k.closed)
+            }
+            _ => d.clone(),
+        };
+        let a = self.cmp("issue-counts-mismatch", "issue counts", c, d, adj);
+        out.push(format!("IC:{a}"));
+
+        (pool.join(","), out.join("|"))
+    }
+
+    /// Model assumptions, checked on the real objects: serde round-trip of every object; a revision id
+    /// occurs (non-redacted) in at most one patch, and if it is a patch id, in that patch.
+    fn check_assumptions(&mut self) {
+        let repo = self.reopen();
+        let Ok(ps) = patch::Patches::open(&repo) else { return };
+        let Ok(all) = ps.all() else { return };
+        let all: Vec<(ObjectId, Patch)> = all.filter_map(|r| r.ok()).collect();
+        let ids: BTreeSet<String> = all.iter().map(|(id, _)| id.to_string()).collect();
+        let mut owner: BTreeMap<String, String> = BTreeMap::new();
+        for (id, p) in &all {
+            let js = serde_json::to_string(p).unwrap_or_default();
+            if serde_json::from_str::<Patch>(&js).ok().as_ref() != Some(p) {
+                self.viol.push(("serde-roundtrip".into(), format!("patch {id} does not round-trip through JSON")));
+            }
+            for (rid, r) in p.revisions() {
+                let rjs = serde_json::to_string(r).unwrap_or_default();
+                if serde_json::from_str::<patch::Revision>(&rjs).ok().as_ref() != Some(r) {
+                    self.viol.push(("serde-roundtrip".into(), format!("revision {rid} does not round-trip through JSON")));
+                }
+                let rid = rid.to_string();
+                if let Some(o) = owner.insert(rid.clone(), id.to_string()) {
+                    self.viol.push(("revision-id-not-unique".into(), format!("revision {rid} occurs in patches {o} and {id}")));
+                }
+                if ids.contains(&rid) && rid != id.to_string() {
+                    self.viol.push(("revision-id-not-unique".into(), format!("revision {rid} of patch {id} is another patch's id")));
+                }
+            }
+        }
+        if let Ok(is) = issue::Issues::open(&repo) {
+            if let Ok(all) = is.all() {
+                for (id, i) in all.filter_map(|r| r.ok()) {
+                    let js = serde_json::to_string(&i).unwrap_or_default();
+                    if serde_json::from_str::<Issue>(&js).ok().as_ref() != Some(&i) {
+                        self.viol.push(("serde-roundtrip".into(), format!("issue {id} does not round-trip through JSON")));
+                    }
+                }
+            }
+        }
+    }
+}
+
+const LOCAL_OPS: &[&str] = &["pc", "pd", "rev", "red", "cm", "cred", "rv", "rvc", "rvred", "lc", "mg", "ed", "rm", "ic", "icm", "icred", "ilc", "ied", "irm"];
+
+/// Executes the script; returns the outcome and the annotated input (script + regenerated annotations).
+fn run_script(input: &str) -> (Outcome, String) {
+    let toks: Vec<&str> = input.split(' ').filter(|t| !t.is_empty() && !t.starts_with('@')).collect();
+    if toks.is_empty() {
+        return (Outcome::new("bad-case").trivial(), input.to_string());
+    }
+    let mut w = World::new();
+    let mut annotated: Vec<String> = vec![];
+    let mut outputs: Vec<String> = vec![];
+    let mut bad = false;
+    for (k, tok) in toks.iter().enumerate() {
+        annotated.push(tok.to_string());
+        let head = tok.split(['.', ':']).next().unwrap_or("");
+        if LOCAL_OPS.contains(&head) {
+            let done = w.op(tok, &k.to_string(), true);
+            match done {
+                Done::Failed(e) => {
+                    if e == "bad-signer" || e == "bad-arg" || e == "bad-op" {
+                        bad = true;
+                    }
+                    w.tags.insert(format!("fail-{head}"));
+                    annotated.push("@fail".into());
+                }
+                Done::Touched(kind, id) => {
+                    let n = w.sym_of(&id.to_string());
+                    let kc = if kind == Kind::Patch { 'p' } else { 'i' };
+                    if head == "rm" || head == "irm" {
+                        let abs = w.abs(kind, &id);
+                        w.tags.insert(if abs == "-" { "remove-last-ref".into() } else { "remove-object-survives".to_string() });
+                        annotated.push(format!("@rm:{kc}:{n}={abs}"));
+                        let (eq, cached_none, direct_some) = w.probe(kind, &id);
+                        let stale = if kind == Kind::Patch { &mut w.stale_p } else { &mut w.stale_i };
+                        stale.remove(&n);
+                        if eq {
+                            // in sync (the last reference is gone, or the row was refreshed)
+                        } else if direct_some && cached_none {
+                            // known finding: removed by the local signer, alive through another peer's reference
+                            stale.insert(n.clone());
+                            w.viol.push(("stale-after-remove".into(), format!("{n}: removed by the local signer, still evaluates from another peer's reference, cache row deleted")));
+                        } else if !direct_some {
+                            w.viol.push(("row-survives-remove".into(), format!("{n}: object gone from the repository, cache row still there")));
+                        } else {
+                            w.viol.push((if kind == Kind::Patch { "get-mismatch" } else { "issue-get-mismatch" }.into(), format!("{n}: after remove the cache row differs from direct evaluation")));
+                        }
+                    } else {
+                        let abs = w.abs_checked(kind, &id, if head == "pc" || head == "pd" || head == "ic" { "stale-after-create" } else { "stale-after-update" });
+                        w.tags.insert(format!("ok-{head}"));
+                        annotated.push(format!("@ok:{kc}:{n}={abs}"));
+                        if kind == Kind::Patch { w.stale_p.remove(&n); } else { w.stale_i.remove(&n); }
+                    }
+                }
+            }
+        } else if head == "f" || head == "f!" {
+            let body = tok.split_once(':').map(|x| x.1).unwrap_or("");
+            let before = w.refs();
+            let mut touched: Vec<(Kind, ObjectId)> = vec![];
+            for (j, sub) in body.split('+').enumerate() {
+                let sh = sub.split('.').next().unwrap_or("");
+                if !LOCAL_OPS.contains(&sh) {
+                    bad = true;
+                    continue;
+                }
+                match w.op(sub, &format!("{k}x{j}"), false) {
+                    Done::Failed(e) => {
+                        if e == "bad-signer" || e == "bad-arg" || e == "bad-op" {
+                            bad = true;
+                        }
+                        w.tags.insert(format!("fetched-fail-{sh}"));
+                    }
+                    Done::Touched(kind, id) => {
+                        w.tags.insert(format!("fetched-ok-{sh}"));
+                        if !touched.contains(&(kind, id)) {
+                            touched.push((kind, id));
+                        }
+                    }
+                }
+            }
+            let after = w.refs();
+            let mut updates: Vec<RefUpdate> = vec![];
+            let mut refs_ann: Vec<String> = vec![];
+            let mut names: BTreeSet<&String> = before.keys().collect();
+            names.extend(after.keys());
+            for n in names {
+                let Ok(name) = git::RefString::try_from(n.as_str()) else { continue };
+                let upd = match (before.get(n), after.get(n)) {
+                    (Some(o), Some(nw)) if o != nw => Some((RefUpdate::Updated { name: name.clone(), old: *o, new: *nw }, 'u')),
+                    (None, Some(nw)) => Some((RefUpdate::Created { name: name.clone(), oid: *nw }, 'c')),
+                    (Some(o), None) => Some((RefUpdate::Deleted { name: name.clone(), oid: *o }, 'd')),
+                    _ => None,
+                };
+                if let Some((u, kc)) = upd {
+                    if let Some(ns) = name.to_namespaced() {
+                        if let Ok(Some(tid)) = cob::TypedId::from_namespaced(&ns) {
+                            let k = if tid.is_patch() { Some('p') } else if tid.is_issue() { Some('i') } else { None };
+                            if let Some(k) = k {
+                                let sn = w.sym_of(&tid.id.to_string());
+                                refs_ann.push(format!("{k}{sn}:{kc}"));
+                                w.tags.insert(format!("refupdate-{kc}"));
+                                // cache_cobs rewrites (or removes) this row
+                                if k == 'p' { w.stale_p.remove(&sn); } else { w.stale_i.remove(&sn); }
+                            }
+                        }
+                    }
+                    updates.push(u);
+                }
+            }
+            if head == "f!" {
+                // a ref whose update was skipped by the fetch (nothing changed in the repository)
+                if let Some((n, o)) = after.iter().find(|(n, _)| {
+                    (n.contains("/refs/cobs/xyz.radicle.patch/") || n.contains("/refs/cobs/xyz.radicle.issue/")) && before.get(*n) == after.get(*n)
+                }) {
+                    if let Ok(name) = git::RefString::try_from(n.as_str()) {
+                        if let Some(ns) = name.to_namespaced() {
+                            if let Ok(Some(tid)) = cob::TypedId::from_namespaced(&ns) {
+                                let k = if tid.is_patch() { 'p' } else { 'i' };
+                                let sn = w.sym_of(&tid.id.to_string());
+                                refs_ann.push(format!("{k}{sn}:s"));
+                                w.tags.insert("refupdate-s".into());
+                            }
+                        }
+                        updates.push(RefUpdate::Skipped { name, oid: *o });
+                    }
+                }
+            }
+            let rid = w.repo().id;
+            let repo = w.reopen();
+            let mut db = w.db.clone();
+            let r = catch(|| cache_cobs(&rid, &updates, &repo, &mut db).map_err(|e| e.to_string()));
+            if !matches!(r, Ok(Ok(()))) {
+                w.viol.push(("cache-cobs-failed".into(), format!("{r:?}")));
+            }
+            let mut chg = vec![];
+            for (kind, id) in &touched {
+                let n = w.sym_of(&id.to_string());
+                let abs = w.abs_checked(*kind, id, "stale-after-fetch");
+                chg.push(format!("{}{n}={abs}", if *kind == Kind::Patch { 'p' } else { 'i' }));
+            }
+            let chg = if chg.is_empty() { "-".to_string() } else { chg.join("&") };
+            let refs_ann = if refs_ann.is_empty() { "-".to_string() } else { refs_ann.join(",") };
+            annotated.push(format!("@f:{chg}|{refs_ann}"));
+        } else if head == "w" || head == "iw" {
+            let name = tok.split('.').nth(1).unwrap_or("");
+            let repo = w.reopen();
+            match w.oid_of(name).map(ObjectId::from) {
+                None => {
+                    w.tags.insert("fail-write".into());
+                }
+                Some(id) => {
+                    let ok = if head == "w" {
+                        let mut c = patch::Cache::open(patch::Patches::open(&repo).expect("open"), w.db.clone());
+                        c.write(&id).is_ok()
+                    } else {
+                        let mut c = issue::Cache::open(issue::Issues::open(&repo).expect("open"), w.db.clone());
+                        c.write(&id).is_ok()
+                    };
+                    w.tags.insert(if ok { "ok-write".into() } else { "fail-write".to_string() });
+                    if ok {
+                        if head == "w" { w.stale_p.remove(name); } else { w.stale_i.remove(name); }
+                    }
+                }
+            }
+            // the driver needs the name only if it exists; unknown names are no-ops on both sides
+        } else if *tok == "wa" || *tok == "iwa" {
+            let repo = w.reopen();
+            let ok = if *tok == "wa" {
+                let mut c = patch::Cache::open(patch::Patches::open(&repo).expect("open"), w.db.clone());
+                c.write_all(|_, _| ControlFlow::Continue(())).is_ok()
+            } else {
+                let mut c = issue::Cache::open(issue::Issues::open(&repo).expect("open"), w.db.clone());
+                c.write_all(|_, _| ControlFlow::Continue(())).is_ok()
+            };
+            if !ok {
+                w.viol.push(("write-all-failed".into(), tok.to_string()));
+            }
+            w.tags.insert("ok-write-all".into());
+            if ok {
+                if *tok == "wa" { w.stale_p.clear(); } else { w.stale_i.clear(); }
+            }
+        } else if *tok == "q" {
+            let (pool, out) = w.query();
+            annotated.push(format!("@pool:{pool}"));
+            outputs.push(out);
+        } else {
+            bad = true;
+        }
+        if bad {
+            return (Outcome::new("bad-case").trivial(), input.to_string());
+        }
+    }
+    w.check_assumptions();
+    let mut o = Outcome::new(if outputs.is_empty() { "-".to_string() } else { outputs.join(" ;; ") });
+    o.nontrivial = !outputs.is_empty();
+    o.tags = w.tags.iter().cloned().collect();
+    // one oracle line per class is enough
+    let mut seen = BTreeSet::new();
+    for (c, m) in w.viol.drain(..) {
+        if seen.insert(c.clone()) {
+            o.violations.push((c, m));
+        }
+    }
+    let _ = CobStore::<Patch, Repository>::open; // (type anchor)
+    (o, annotated.join(" "))
+}
+
+// ---- generator ----------------------------------------------------------------------------------------
+
+#[derive(Default, Clone)]
+struct GRev {
+    name: String,
+    author: usize,
+    redacted: bool,
+    comments: Vec<(String, usize)>,
+    reviews: Vec<(String, usize)>,
+}
+
+#[derive(Default, Clone)]
+struct GPatch {
+    name: String,
+    revs: Vec<GRev>,
+    removed: bool,
+    others: bool,
+}
+
+#[derive(Default, Clone)]
+struct GIssue {
+    name: String,
+    comments: Vec<(String, usize)>,
+    removed: bool,
+}
+
+struct Gen {
+    patches: Vec<GPatch>,
+    issues: Vec<GIssue>,
+}
+
+const S: [&str; 3] = ["a", "b", "c"];
+
+impl Gen {
+    /// One operation by signer `s`; `tag` names the created entity.
+    fn op(&mut self, rng: &mut Rng, s: usize, tag: &str) -> String {
+        let sg = S[s];
+        let live_p: Vec<usize> = (0..self.patches.len()).filter(|i| !self.patches[*i].removed || rng.chance(1, 6)).collect();
+        let live_i: Vec<usize> = (0..self.issues.len()).filter(|i| !self.issues[*i].removed || rng.chance(1, 6)).collect();
+        let choice = rng.below(100);
+        if live_p.is_empty() && choice < 70 || choice < 12 {
+            let name = format!("p{tag}");
+            self.patches.push(GPatch { name: name.clone(), revs: vec![GRev { name, author: s, ..Default::default() }], removed: false, others: s != 0 });
+            return format!("{}.{sg}.{}", if rng.chance(1, 4) { "pd" } else { "pc" }, rng.below(3));
+        }
+        if choice < 70 {
+            let pi = *rng.pick(&live_p);
+            if s != 0 {
+                self.patches[pi].others = true;
+            }
+            let p = self.patches[pi].clone();
+            let ri = rng.below(p.revs.len() as u64) as usize;
+            let r = &p.revs[ri];
+            return match rng.below(21) {
+                0..=2 => {
+                    self.patches[pi].revs.push(GRev { name: format!("r{tag}"), author: s, ..Default::default() });
+                    format!("rev.{sg}.{}.{}", p.name, rng.below(3))
+                }
+                3..=5 => {
+                    // redact (own revisions succeed; the root and foreign ones fail)
+                    self.patches[pi].revs[ri].redacted |= r.author == s && ri != 0;
+                    format!("red.{sg}.{}.{}", p.name, r.name)
+                }
+                6..=8 => {
+                    self.patches[pi].revs[ri].comments.push((format!("c{tag}"), s));
+                    format!("cm.{sg}.{}.{}", p.name, r.name)
+                }
+                9 => match r.comments.first() {
+                    Some((c, _)) => format!("cred.{sg}.{}.{}.{c}", p.name, r.name),
+                    None => format!("cm.{sg}.{}.{}", p.name, r.name),
+                },
+                10..=11 => {
+                    self.patches[pi].revs[ri].reviews.push((format!("v{tag}"), s));
+                    format!("rv.{sg}.{}.{}.{}", p.name, r.name, rng.pick(&["a", "r", "n"]))
+                }
+                12 => match r.reviews.first() {
+                    Some((v, _)) => format!("rvc.{sg}.{}.{v}", p.name),
+                    None => format!("rv.{sg}.{}.{}.a", p.name, r.name),
+                },
+                13 => match r.reviews.first() {
+                    Some((v, _)) => format!("rvred.{sg}.{}.{v}", p.name),
+                    None => format!("ed.{sg}.{}.{}", p.name, rng.below(9)),
+                },
+                14..=16 => format!("lc.{sg}.{}.{}", p.name, rng.pick(&["o", "d", "a", "a"])),
+                17 => format!("mg.{sg}.{}.{}", p.name, r.name),
+                18 => format!("ed.{sg}.{}.{}", p.name, rng.below(9)),
+                _ => {
+                    self.patches[pi].removed = true;
+                    format!("rm.{sg}.{}", p.name)
+                }
+            };
+        }
+        if live_i.is_empty() || choice < 78 {
+            self.issues.push(GIssue { name: format!("i{tag}"), ..Default::default() });
+            return format!("ic.{sg}.{}", rng.below(9));
+        }
+        let ii = *rng.pick(&live_i);
+        let i = self.issues[ii].clone();
+        match rng.below(10) {
+            0..=2 => {
+                self.issues[ii].comments.push((format!("c{tag}"), s));
+                format!("icm.{sg}.{}", i.name)
+            }
+            3 => match i.comments.first() {
+                Some((c, _)) => format!("icred.{sg}.{}.{c}", i.name),
+                None => format!("icm.{sg}.{}", i.name),
+            },
+            4..=6 => format!("ilc.{sg}.{}.{}", i.name, rng.pick(&["o", "s", "x"])),
+            7 => format!("ied.{sg}.{}.{}", i.name, rng.below(9)),
+            _ => {
+                self.issues[ii].removed = true;
+                format!("irm.{sg}.{}", i.name)
+            }
+        }
+    }
+}
+
+fn gen_case(rng: &mut Rng, max_ops: u64) -> String {
+    let mut g = Gen { patches: vec![], issues: vec![] };
+    let n = rng.range(6, max_ops);
+    let mut toks: Vec<String> = vec![];
+    while (toks.len() as u64) < n {
+        let k = toks.len();
+        let r = rng.below(100);
+        if r < 62 {
+            let t = g.op(rng, 0, &k.to_string());
+            toks.push(t);
+        } else if r < 84 {
+            let m = rng.range(1, 3);
+            let subs: Vec<String> = (0..m).map(|j| {
+                let s = rng.range(1, 2) as usize;
+                g.op(rng, s, &format!("{k}x{j}"))
+            }).collect();
+            toks.push(format!("{}:{}", if rng.chance(1, 4) { "f!" } else { "f" }, subs.join("+")));
+        } else if r < 88 {
+            toks.push(if rng.bool() { "wa".into() } else { "iwa".to_string() });
+        } else if r < 91 {
+            if rng.bool() && !g.patches.is_empty() {
+                toks.push(format!("w.{}", rng.pick(&g.patches).name));
+            } else if !g.issues.is_empty() {
+                toks.push(format!("iw.{}", rng.pick(&g.issues).name));
+            } else {
+                toks.push("q".into());
+            }
+        } else {
+            toks.push("q".into());
+        }
+    }
+    toks.push("q".into());
+    toks.join(" ")
+}
+
 fn main() {
-    eprintln!("C09: harness not implemented");
-    std::process::exit(3);
+    // Real git repositories are I/O bound: keep them on tmpfs when there is one (100x faster on a loaded disk).
+    if std::env::var_os("C09_KEEP_TMPDIR").is_none() && std::path::Path::new("/dev/shm").is_dir() {
+        std::env::set_var("TMPDIR", "/dev/shm");
+    }
+    let mut ctx = Ctx::from_args("C09");
+    let (fixed, is_replay) = ctx.fixed_inputs();
+    for i in fixed {
+        let (o, annotated) = run_script(&i);
+        ctx.count("corpus-or-replay");
+        ctx.record(&annotated, o);
+    }
+    if !is_replay {
+        let mut rng = ctx.rng();
+        let n = ctx.size(45, 1000);
+        for _ in 0..n {
+            let input = gen_case(&mut rng, 28);
+            let (o, annotated) = run_script(&input);
+            ctx.record(&annotated, o);
+        }
+    }
+    // the template lives in a static: remove its directory by hand
+    let _ = std::fs::remove_dir_all(&template().root);
+    ctx.finish(
+        "one fresh real repository + write-through in-memory SQLite COB cache per case; random scripts of local operations \
+         (create/draft/revision/redact/comment/review/lifecycle/merge/edit/remove/write/write_all on patches and issues), fetched \
+         updates by two other signers applied through the real cache_cobs with the actual ref diff (created/updated/deleted/skipped), \
+         and query points where every Patches/Issues query runs on Cache<_,StoreWriter> and Cache<_,NoCache> for every id occurring \
+         anywhere in any object (patch, revision incl. redacted, comment, review, review comment, entry, commit, issue) + unknown ids; \
+         non-trivial = at least one query point; distinct by script text",
+        false,
+    );
 }
